@@ -44,8 +44,10 @@ def to_text(plan, plan_id="p"):
     for k in sorted(plan.get("knobs", {})):
         out.append("knob %s %d" % (k, int(plan["knobs"][k])))
     for f in plan.get("files", []):
-        out.append("file %s %s %d" % (hexenc(f["vpath"]), hexenc(f.get("backing", "")),
-                                      int(f.get("errno", 0))))
+        line = "file %s %s %d" % (hexenc(f["vpath"]), hexenc(f.get("backing", "")), int(f.get("errno", 0)))
+        for off, byte in f.get("patches", []) or []:
+            line += " patch:%d:%d" % (off, byte)
+        out.append(line)
     for i, p in enumerate(plan.get("progs", [])):
         out.append("prog %d %d %s" % (i, int(p.get("mode", 0)), hexenc(p["text"])))
     for s in plan.get("steps", []):
